@@ -422,6 +422,31 @@ func RequiredGuards(r *core.Run, guards []RequiredGuard) {
 								}
 							}
 						}
+						// the default arm of a tagged switch is taken when the tag differs from every case: `tag != a && tag != b …`
+						if sw.Tag != nil {
+							var def *ast.CaseClause
+							var conj ast.Expr
+							for _, cl := range sw.Body.List {
+								cc := cl.(*ast.CaseClause)
+								if cc.List == nil {
+									def = cc
+								}
+								for _, ce := range cc.List {
+									ne := ast.Expr(&ast.BinaryExpr{X: sw.Tag, Op: token.NEQ, Y: ce})
+									if conj == nil {
+										conj = ne
+									} else {
+										conj = &ast.BinaryExpr{X: conj, Op: token.LAND, Y: ne}
+									}
+								}
+							}
+							if def != nil && conj != nil {
+								syn := &ast.IfStmt{If: def.Pos(), Cond: conj, Body: &ast.BlockStmt{Lbrace: def.Colon, List: def.Body, Rbrace: def.End()}}
+								if bodyReturnsError(info, syn.Body, errIdx, inLit) && g.Match(info, syn, prev) {
+									found = true
+								}
+							}
+						}
 						for _, cl := range sw.Body.List {
 							cc := cl.(*ast.CaseClause)
 							// guards nested in the clause are visited by the enclosing Inspect
